@@ -17,6 +17,8 @@ type Term struct {
 	P2   int // extract lo
 	id   int
 	sent bool // definition already sent to solver
+	sums []*Term // ideal-sum variables occurring in this term (see extern3.go)
+	isSum bool
 }
 
 type termKey struct {
@@ -58,8 +60,38 @@ func intern(t *Term) *Term {
 	}
 	termSeq++
 	t.id = termSeq
+	for _, a := range t.Args {
+		if len(a.sums) > 0 {
+			t.sums = mergeSums(t.sums, a.sums)
+		}
+	}
 	termTab[k] = t
 	return t
+}
+
+func mergeSums(a, b []*Term) []*Term {
+	if len(a) == 0 {
+		return b
+	}
+	out := a
+	copied := false
+	for _, x := range b {
+		found := false
+		for _, y := range out {
+			if x == y {
+				found = true
+				break
+			}
+		}
+		if !found {
+			if !copied {
+				out = append([]*Term(nil), a...)
+				copied = true
+			}
+			out = append(out, x)
+		}
+	}
+	return out
 }
 
 // resetTerms forgets every interned term (ids keep growing, so terms of
